@@ -235,8 +235,43 @@ def h_rescale_zero_counts(ctx, graph, intervals):
     ctx.tag("kernel-ok")
 
 
+def h_infer_options(ctx):
+    """The real ExpectationPropagation (constructor, infer, rescale, moments) on a real small
+    input with solver-chosen rescaling / iteration options that the API documents as valid:
+    no internal error."""
+    from symx import load
+    var = load.tsdate_module("variational")
+    ts = SK.two_tree()
+    ri = _pick([0, 1, 2], "intervals")
+    rit = _pick([0, 1, 2], "iterations")
+    seg = _pick([False, True], "segsites")
+    reg = _pick([True, False], "regularise")
+    try:
+        ep = var.ExpectationPropagation(ts, mutation_rate=0.1)
+        ep.infer(ep_iterations=2, max_shape=1000, rescale_intervals=ri, rescale_iterations=rit,
+                 regularise=reg, rescale_segsites=seg)
+        ep.node_moments()
+        ep.mutation_moments()
+    except AssertionError as e:
+        if "rescaling intervals" in repr(e):
+            ctx.tag("F3-path")
+            return
+        ctx.fail("options:no_internal_error", detail={"exception": repr(e)[:200],
+                                                      "options": [ri, rit, seg, reg]})
+        return
+    except (ValueError, NotImplementedError):
+        ctx.fail("options:valid_options_not_rejected", detail={"options": [ri, rit, seg, reg]})
+        return
+    except Exception as e:
+        ctx.fail("options:no_internal_error", detail={"exception": repr(e)[:200],
+                                                      "options": [ri, rit, seg, reg]})
+        return
+    ctx.tag("options-ok")
+
+
 def cases(tier):
     cs = [Case("validate:variational_gamma", h_validate_vg, {}, shard_depth=6, weight=50)]
+    cs.append(Case("options:infer", h_infer_options, {}))
     for m in ("inside_outside", "maximization"):
         cs.append(Case(f"validate:{m}", h_validate_discrete, dict(method=m), shard_depth=4,
                        weight=20))
@@ -278,7 +313,7 @@ def run(tier, seed, t0):
         out_of_scope=["whole-pipeline exhaustiveness over tree sequences", "tskit-level validity",
                       "numba typing errors (call sites are exercised by C37/C24)"],
         validated=npx.validate(),
-        expect_tags=["rejected", "returned", "kernel-ok"],
+        expect_tags=["rejected", "returned", "kernel-ok", "options-ok"],
     )
 
 
@@ -289,6 +324,19 @@ def replay(payload):
     case = payload["case"]
     d = payload.get("detail") or {}
     m = common.model_floats(payload["model"])
+    if case.startswith("options:"):
+        o = d.get("options") or [1, 0, False, True]
+        try:
+            tsdate.date(SK.two_tree(), mutation_rate=0.1, rescaling_intervals=o[0],
+                        rescaling_iterations=o[1], match_segregating_sites=o[2],
+                        regularise_roots=o[3], max_iterations=2)
+        except (ValueError, NotImplementedError) as e:
+            return True, f"valid options {o} rejected: {e}"
+        except AssertionError as e:
+            return ("rescaling intervals" not in repr(e)), f"options {o}: {e!r}"
+        except Exception as e:
+            return True, f"date(two_tree, rescaling_intervals={o[0]}, rescaling_iterations={o[1]}, ...) raised {type(e).__name__}: {e}"
+        return False, "returned"
     if case.startswith("kernel:"):
         # few mutations: build a 3-sample tree sequence whose edges carry the model's counts
         kw = payload["case_kw"]
